@@ -149,6 +149,9 @@ def prepare_examples(ctx, extreme_rain=True):
     gp = os.path.join(ex, "project", "ex3", "gw_ex3.csv")
     g3 = open(gp).read().rstrip("\n")
     g3 += "\nK12,01011979,12\nK12,12011980,12\nK12,06011981,12\n"
+    # a table that falls from 5 dm to the profile bottom overnight: the first sub-steps of the following day move much
+    # water and nitrate (transport clamps above the instability threshold in an EARLY sub-step of a multi-sub-step day)
+    g3 += "K5,01011979,5\nK5,06201981,5\nK5,06211981,19\nK5,12312010,19\n"
     open(gp, "w").write(g3)
     # the residue table: the silage-maize row becomes the LAST row, and the file keeps ending without a line feed
     cn = os.path.join(ex, "parameter", "CROP_N.TXT")
@@ -234,6 +237,7 @@ TRACE_LINES = [
     # Haude's method on a weather file without a saturation-deficit column: potential ET is 0 every day, so the surface
     # flux equals the rain exactly (class limits of the sub-step choice are hit exactly)
     ("project=ex1 WeatherFolder=extreme soilId=075 fcode=109_120 plotNr=10002 Altitude=73 Latitude=52.6728 poligonID=29873 ETpot=1 AutoIrrigation=0", "EN"),
+    ("project=ex3 WeatherFolder=historical soilId=075 gwId=K5 fcode=109_120 plotNr=10001 Altitude=73 Latitude=52.6732 poligonID=29872", "EN"),
     ("project=bulk WeatherFolder=extreme soilId=002 fcode=109_120 plotNr=10001 Altitude=73 Latitude=52.6732 poligonID=29872", "EN"),
     ("project=rue WeatherFolder=historical fcode=109_121 plotNr=10002 soilId=001 Altitude=46 Latitude=52.6431 poligonID=30169", "DE"),
     ("project=ex1 WeatherFolder=extreme soilId=041 fcode=109_121 plotNr=10001 Altitude=73 Latitude=52.6680 poligonID=29876 ETpot=1", "EN"),
@@ -264,7 +268,7 @@ def run_trace(ctx, water_every=None):
     """traced runs of shipped projects (scratch copy) -> (rc, cases, oracle lines, stderr)"""
     import os
     ex = prepare_examples(ctx)
-    nl, endy = (13, 1995) if ctx.thorough else (10, 1982)
+    nl, endy = (14, 1995) if ctx.thorough else (11, 1982)
     lf = os.path.join(ctx.work, "trace_lines.txt")
     with open(lf, "w") as f:
         f.write("\n".join(trace_lines(ctx, nl, endy)) + "\n")
